@@ -185,7 +185,7 @@ def run(ctx):
     from .. import pipeline
 
     # wiring: the run's stored columns are this stage applied to the run's stored columns (see nssmc/pipeline.py)
-    pipeline.run_in(ctx, ['geometry'], ('A', 'C'))
+    pipeline.run_in(ctx, ['geometry'], ('A', 'C'), plots=['geom_beta_tr_hist'])
     tier = ctx.tier
     m = 10 if tier == "quick" else 16
     ua = u_alphabet(m)
